@@ -301,8 +301,9 @@ Proof.
   intros WR Hk. revert j g. induction l as [|c r IH]; intros j g Hl H; simpl; auto.
   apply IH.
   - intros m c' Hm. specialize (Hl (S m) c' Hm). replace (S j + m)%nat with (j + S m)%nat by lia. auto.
-  - destruct (existsb (fun s => (i_src s =? k)%nat && i_active s) (c_ins c) && n_started (node_at j g)) eqn:E; auto.
-    apply andb_true_iff in E. destruct E as [E _]. apply existsb_exists in E. destruct E as [s [Hs Es]].
+  - destruct (existsb (fun sa => (i_src (fst sa) =? k)%nat && snd sa) (combine (c_ins c) (n_act (node_at j g))) && n_started (node_at j g)) eqn:E; auto.
+    apply andb_true_iff in E. destruct E as [E _]. apply existsb_exists in E. destruct E as [[s a] [Hs Es]].
+    apply in_combine_l in Hs. simpl in Es.
     destruct (Hl 0%nat c eq_refl) as [Hj Hc]. rewrite Nat.add_0_r in *. subst c.
     pose proof (WR j s Hj Hs) as Hlt.
     assert (i_src s = k) by lia. subst k.
@@ -381,6 +382,8 @@ Proof.
       destruct (X Hlt) as [X1 _]. lia.
     + apply OI_schedule_self; auto; lia.
   - (* OThrow *) simpl. intros; lia.
+  - (* OMakePassive *) intros _. apply OI_upd_other; auto.
+  - (* OMakeActive *) intros _. apply OI_upd_other; auto.
   - (* ONop *) auto.
 Qed.
 
@@ -782,6 +785,28 @@ Proof.
     + rewrite NO in He by auto. apply A; auto.
 Qed.
 
+Lemma start_ok_upd_other k i f g :
+  (forall x, n_sch (f x) = n_sch x) -> (forall x, n_started x = true -> n_started (f x) = true) ->
+  start_ok k g -> start_ok k (upd_node i f g).
+Proof.
+  intros Hs Hst [L1 L2 I St A].
+  assert (NA : forall j, n_sch (node_at j (upd_node i f g)) = n_sch (node_at j g)).
+  { intros j. destruct (Nat.eq_dec i j) as [->|Hne]; [|rewrite node_at_upd_other; auto].
+    destruct (Nat.lt_ge_cases j (length (g_nodes g))).
+    - rewrite node_at_upd_same by lia. apply Hs.
+    - unfold node_at, upd_node; simpl. rewrite !nth_overflow; auto. rewrite update_length; auto. }
+  constructor; auto.
+  - unfold upd_node; simpl. rewrite update_length; auto.
+  - intros j Hj. rewrite NA; auto.
+  - intros j Hj. destruct (Nat.eq_dec i j) as [->|Hne]; [|rewrite node_at_upd_other; auto].
+    destruct (Nat.lt_ge_cases j (length (g_nodes g))).
+    + rewrite node_at_upd_same by lia. apply Hst; auto.
+    + assert (E : node_at j (upd_node j f g) = node_at j g).
+      { unfold node_at, upd_node; simpl. rewrite !nth_overflow; auto. rewrite update_length; auto. }
+      rewrite E. auto.
+  - intros j Hj Hc e He. unfold pending in *. rewrite NA in He. apply A; auto.
+Qed.
+
 Lemma start_do_op k opi o g :
   (k < n)%nat -> start_ok k g ->
   match o with ORaw _ => False | OSchedule d _ => g_now g + d < MAX_DT | _ => True end ->
@@ -807,6 +832,8 @@ Proof.
     apply start_set_sch_sub; auto. apply inv_reset. intros e [].
   - replace (c_out (cfg k) && false) with false by (destruct (c_out (cfg k)); auto). auto.
   - apply (start_ok_same_core k g); [repeat split|auto].
+  - apply start_ok_upd_other; auto.
+  - apply start_ok_upd_other; auto.
   - auto.
 Qed.
 
@@ -826,11 +853,13 @@ Lemma start_node_ok k g :
   g_err (start_node cfgs beh k g) = 0 -> start_ok (S k) (start_node cfgs beh k g).
 Proof.
   intros SO Hk H. unfold start_node. fold (cfg k).
-  destruct (negb (g_err g =? 0)) eqn:E0; [intros; lia|].
-  set (ops := beh k (-1) (g_now g) (read_inputs (cfg k) g) (n_sch (node_at k g))).
-  assert (H1 : start_ok k (do_ops cfgs k false 0 ops g)).
+  destruct (negb (g_err g =? 0)) eqn:E0; [intros; lia|]. cbn zeta.
+  set (ga := upd_node k (set_act (map i_active (c_ins (cfg k)))) g).
+  assert (Ha : start_ok k ga) by (apply start_ok_upd_other; auto).
+  set (ops := beh k (-1) (g_now ga) (read_inputs (cfg k) ga) (n_sch (node_at k ga))).
+  assert (H1 : start_ok k (do_ops cfgs k false 0 ops ga)).
   { apply start_do_ops; auto. intros o Ho. apply (SO k _ _ o Ho). }
-  set (g1 := do_ops cfgs k false 0 ops g) in *.
+  set (g1 := do_ops cfgs k false 0 ops ga) in *.
   destruct (negb (g_err g1 =? 0)) eqn:E1; [intros; lia|].
   destruct H1 as [L1 L2 I St A].
   set (g2 := upd_node k set_started g1).
@@ -867,10 +896,11 @@ Qed.
 Lemma start_nodes_now m : forall i g, g_now (start_nodes cfgs beh i m g) = g_now g.
 Proof.
   induction m as [|m IH]; intros i g; simpl; auto. rewrite IH. unfold start_node.
-  destruct (negb (g_err g =? 0)); auto.
-  match goal with |- context [do_ops cfgs i false 0 ?o g] => set (ops := o) end.
-  destruct (negb (g_err (do_ops cfgs i false 0 ops g) =? 0)); [apply do_ops_now|].
-  destruct (c_sos (nth i cfgs dflt_cfg)); [rewrite schedule_node_now|]; simpl; apply do_ops_now.
+  destruct (negb (g_err g =? 0)); auto. cbn zeta.
+  match goal with |- context [do_ops cfgs i false 0 ?o ?ga] => set (ops := o); set (gA := ga) end.
+  assert (NA : g_now gA = g_now g) by reflexivity.
+  destruct (negb (g_err (do_ops cfgs i false 0 ops gA) =? 0)); [rewrite do_ops_now; exact NA|].
+  destruct (c_sos (nth i cfgs dflt_cfg)); [rewrite schedule_node_now|]; simpl; rewrite do_ops_now; exact NA.
 Qed.
 
 Lemma start_nodes_err_sticky m : forall i g, g_err g <> 0 -> start_nodes cfgs beh i m g = g.
@@ -1111,10 +1141,11 @@ Proof.
   unfold start_graph. set (g0 := mkG _ _ _ _ _ _).
   assert (G : forall m i g, log10 (start_nodes cfgs beh i m g) = log10 g).
   { induction m as [|m IH]; intros i g; simpl; auto. rewrite IH. unfold start_node.
-    destruct (negb (g_err g =? 0)); auto.
-    match goal with |- context [do_ops cfgs i false 0 ?o g] => set (ops := o) end.
-    destruct (negb (g_err (do_ops cfgs i false 0 ops g) =? 0)); [apply log10_do_ops|].
-    destruct (c_sos (nth i cfgs dflt_cfg)); [rewrite log10_schedule_node|]; unfold log10; simpl; apply log10_do_ops. }
+    destruct (negb (g_err g =? 0)); auto. cbn zeta.
+    match goal with |- context [do_ops cfgs i false 0 ?o ?ga] => set (ops := o); set (gA := ga) end.
+    assert (NA : log10 gA = log10 g) by reflexivity.
+    destruct (negb (g_err (do_ops cfgs i false 0 ops gA) =? 0)); [rewrite log10_do_ops; exact NA|].
+    destruct (c_sos (nth i cfgs dflt_cfg)); [rewrite log10_schedule_node|]; unfold log10 at 1; simpl; fold (log10 (do_ops cfgs i false 0 ops gA)); rewrite log10_do_ops; exact NA. }
   destruct (negb (g_err _ =? 0)); [rewrite G; reflexivity|].
   unfold seed_cache, log10; simpl. fold (log10 (start_nodes cfgs beh 0 (length cfgs) g0)). rewrite G. reflexivity.
 Qed.
@@ -1189,6 +1220,8 @@ Proof.
   - destruct (_ && _); auto. rewrite node_at_emit, node_at_notify. apply runs_upd; auto.
   - apply f_equal. apply node_at_schedule_node.
   - reflexivity.
+  - apply runs_upd; auto.
+  - apply runs_upd; auto.
   - reflexivity.
 Qed.
 
@@ -1244,20 +1277,23 @@ Proof.
     + split; [split; [lia|intros [_ [X|X]]; discriminate]|left; auto].
 Qed.
 
-(* notifications reach only nodes that have an ACTIVE input bound to the emitting node *)
+(* notifications reach only nodes that have an input bound to the emitting node which is
+   ACTIVE at that moment (declared active and not made passive at run time, or made active) *)
 Lemma notify_only_active l : forall j src g k,
   slot_at k (notify_from l j src g) <> slot_at k g ->
   exists m c, nth_error l m = Some c /\ k = (j + m)%nat /\
-              existsb (fun s => (i_src s =? src)%nat && i_active s) (c_ins c) = true.
+              exists s a, In (s, a) (combine (c_ins c) (n_act (node_at k g))) /\ i_src s = src /\ a = true.
 Proof.
   induction l as [|c r IH]; intros j src g k H; simpl in H; [congruence|].
-  destruct (existsb (fun s => (i_src s =? src)%nat && i_active s) (c_ins c) && n_started (node_at j g)) eqn:E.
+  destruct (existsb (fun sa => (i_src (fst sa) =? src)%nat && snd sa) (combine (c_ins c) (n_act (node_at j g))) && n_started (node_at j g)) eqn:E.
   - destruct (Nat.eq_dec k j) as [->|Hne].
-    + exists 0%nat, c. split; auto. split; [lia|]. apply andb_true_iff in E. tauto.
-    + destruct (IH (S j) src (schedule_node j (g_now g) g) k) as (m & c' & A & B & C).
+    + exists 0%nat, c. split; auto. split; [lia|]. apply andb_true_iff in E. destruct E as [E _].
+      apply existsb_exists in E. destruct E as [[s a] [Hs Es]]. simpl in Es. exists s, a. split; auto. split; [lia|].
+      destruct a; auto. rewrite andb_false_r in Es. discriminate.
+    + destruct (IH (S j) src (schedule_node j (g_now g) g) k) as (m & c' & A & B & s & a & C1 & C2 & C3).
       * rewrite (schedule_node_slot_other j k (g_now g) g) by auto. exact H.
-      * exists (S m), c'. split; auto. split; auto. lia.
-  - destruct (IH (S j) src _ k H) as (m & c' & A & B & C).
+      * exists (S m), c'. split; auto. split; [lia|]. exists s, a. rewrite node_at_schedule_node in C1. auto.
+  - destruct (IH (S j) src g k H) as (m & c' & A & B & C).
     exists (S m), c'. split; auto. split; auto. lia.
 Qed.
 End Activation.
@@ -1299,6 +1335,8 @@ Proof.
   - destruct (_ && _); auto. rewrite node_at_emit, node_at_notify. apply node_at_upd_node_other; auto.
   - apply node_at_schedule_node.
   - reflexivity.
+  - apply node_at_upd_node_other; auto.
+  - apply node_at_upd_node_other; auto.
   - reflexivity.
 Qed.
 
@@ -1341,6 +1379,8 @@ Proof.
   - destruct (_ && _); auto. rewrite node_at_emit, node_at_notify. apply U; auto.
   - apply f_equal. apply node_at_schedule_node.
   - reflexivity.
+  - apply U; auto.
+  - apply U; auto.
   - reflexivity.
 Qed.
 
@@ -1393,6 +1433,8 @@ Proof.
   - destruct (_ && _); auto. simpl. rewrite len_notify. apply len_upd_node.
   - apply len_schedule_node.
   - reflexivity.
+  - apply len_upd_node.
+  - apply len_upd_node.
   - reflexivity.
 Qed.
 
@@ -1473,9 +1515,9 @@ Proof. intros WR Hi Hs. apply scan_prefix_final. apply (WR i s Hi Hs). Qed.
 Lemma notify_only_later_l cfgs src g k :
   well_ranked cfgs -> slot_at k (notify_from cfgs 0 src g) <> slot_at k g -> (src < k)%nat.
 Proof.
-  intros WR H. destruct (notify_only_active cfgs 0%nat src g k H) as (m & c & A & B & C).
-  simpl in B. subst m. apply existsb_exists in C. destruct C as [s [Hs Es]].
+  intros WR H. destruct (notify_only_active cfgs 0%nat src g k H) as (m & c & A & B & s & a & C1 & C2 & C3).
+  simpl in B. subst m. apply in_combine_l in C1.
   assert (Hk : (k < length cfgs)%nat) by (apply nth_error_Some; rewrite A; discriminate).
   assert (Hc : c = cfg cfgs k) by (unfold cfg; symmetry; apply nth_error_nth; auto).
-  subst c. pose proof (WR k s Hk Hs). lia.
+  subst c. pose proof (WR k s Hk C1). lia.
 Qed.
